@@ -574,6 +574,25 @@ impl Check for C09 {
             }
         }));
         // non-final packets inside the pending query (F6: the query used to be given up mid-exchange)
+        // a slow but healthy terminal: every packet comes well inside the per-packet time-out, the
+        // exchange as a whole takes longer than that time-out - no failure, so no reconnect, no resend
+        fams.push(Family::new("slow_but_healthy_terminal", 5 * 2, true, {
+            let wl = wl.clone();
+            move |i, _| {
+                let mut p = ClientPlan::plain(wl[(i % 5) as usize].clone());
+                p.cfg.max_tx = 2;
+                if i / 5 == 0 {
+                    p.cfg.read_card_timeout = 15; // 17 s per packet
+                    p.pt.pace_ms = 12_000;
+                } else {
+                    // 60 s per packet; the handshake as a whole (two paced packets) stays under its 60 s as well
+                    p.cfg.read_card_timeout = 60;
+                    p.pt.pace_ms = 25_000;
+                }
+                p.label = "slow".into();
+                p
+            }
+        }));
         // the terminal answers the identity request of the handshake with a well-formed abort:
         // on the first connection, and on the replacement connection after a failure
         fams.push(Family::new("identity_request_aborted", 5 * 4 * 3, true, {
